@@ -136,6 +136,13 @@ def _ob_weights(op, pieces=1):
             if wst != 'ok' or not is_ok(wr):
                 raise Infeasible()
             w_filled = wr.f[0]
+        elif pieces == 3:
+            # a remainder of earlier piecewise closes: the recorded weight exceeds the weight of the (single) open position by a few units
+            wst, wr = I.try_call('calculate_weight', [Ref([coin_v(LP1, v['pa'])], 0), 30 * DAY], CR)
+            if wst != 'ok' or not is_ok(wr):
+                raise Infeasible()
+            rem = I.sym('weight_remainder', lo=1, hi=4)
+            w_filled = simp(wr.f[0] + rem)
         else:
             p1 = I.sym('p1', lo=1, hi=U128 // 64)
             I.assume(p1 < v['pa'])
@@ -176,9 +183,11 @@ def _ob_weights(op, pieces=1):
         after = {u: _resolved(I, u, c05.E + 1) for u in USERS}
         I.check('pool_manager_holds_no_weight', smt.Eq(_resolved(I, PMA, c05.E + 1), 0))
         du = sum((after[u] - before[u]) for u in after)
-        if pieces == 2:
+        if pieces in (2, 3):
             # the inductive step of `total >= sum of the users' weights`: the total never drops by more than the users' weights do
             I.check('total_never_drops_by_more_than_the_users_weights', T1 - T0 >= du)
+            if pieces == 3 and op in ('close_full', 'emergency_open'):
+                I.check('user_without_open_position_has_no_weight', smt.Eq(after['alice'], 0))
             return
         I.check('total_moves_exactly_with_the_users', smt.Eq(T1 - T0, du))
         I.check('total_still_covers_the_users', T1 >= sum(after.values()))
@@ -228,6 +237,13 @@ for _op in ('expand_position', 'close_full', 'close_partial', 'emergency_open'):
                                    'weight(pa) by rounding): the total weight never drops by more than the users weights do, so the total keeps covering the sum' % _op,
                bounds='state of C05; alice holds one position filled in two pieces with symbolic sizes; symbolic amounts', covers=['ok'],
                replay=_replay_w(_op))(_ob_weights(_op, pieces=2))
+
+
+for _op in ('close_full', 'emergency_open'):
+    obligation('C10', 'S2.remainder_weight_%s' % _op, entries=['execute', 'update_weights', 'get_latest_address_weight', 'reconcile_user_state', 'calculate_weight'],
+               kind='S', statement='%s of the last open position of a user whose recorded weight exceeds the position weight by a rounding remainder (left by earlier '
+                                   'piecewise closes): she ends without weight in the LP token, and the total never drops by more than her weight did' % _op,
+               bounds='state of C05; remainder 1..4 units; symbolic amounts', covers=['ok'], replay=_replay_w(_op))(_ob_weights(_op, pieces=3))
 
 
 # ---------------------------------------------------------------- a user at the limit of closed positions who still has an open one
